@@ -23,6 +23,9 @@ var concSpecs = []concSpec{
 	{file: "GenConcJoinV2.v", part1: "GenJoinV2.v", dir: "v2/join", roots: []string{"Discipline.main"}},
 	{file: "GenConcUnite.v", part1: "GenJoinUniteV2.v", dir: "v2/join/unite", roots: []string{"Discipline.main"}},
 	{file: "GenConcV1Prio.v", part1: "GenV1Prio.v", dir: "priority", roots: []string{"Discipline.main"}},
+	{file: "GenConcJoinV1.v", part1: "GenJoinV1.v", dir: "join", roots: []string{"Discipline.main"}},
+	// v1 Simple: only the handler goroutine (main and gracefulStop start goroutines, which GoConc.v does not model)
+	{file: "GenConcV1Simple.v", part1: "GenV1Simple.v", dir: "priority", roots: []string{"Simple.handler"}},
 }
 
 type concFn struct {
@@ -706,6 +709,43 @@ func (x *cctx) stmt(s ast.Stmt) ([]string, error) {
 			return []string{fmt.Sprintf("Recv (fun v => %s) (fun v o => v)", ch)}, nil
 		}
 		if call, ok := e.(*ast.CallExpr); ok {
+			// smpl.opts.Handle(ctx, item): a call of a callback stored in the receiver -- a synchronous hand-over to the
+			// environment: a send of the (one) non-opaque argument on the pseudo-channel C<field>Call, answered when it returns
+			if fs, ok := ast.Unparen(call.Fun).(*ast.SelectorExpr); ok && t.staticCallee(call) == nil {
+				root := ast.Unparen(fs.X)
+				if inner, ok := root.(*ast.SelectorExpr); ok {
+					root = ast.Unparen(inner.X)
+				}
+				if lv := t.identVar(root); lv != nil && lv.proj == "st_dsc" {
+					if ft, ok := t.info.Types[fs]; ok {
+						if _, isSig := types.Unalias(ft.Type).Underlying().(*types.Signature); isSig {
+							var vals []string
+							var vty *ctype
+							for _, a := range call.Args {
+								s, at, p, err := x.expr(a)
+								if err != nil {
+									return nil, err
+								}
+								if len(p) != 0 {
+									return nil, t.posErr(call, "a call in an argument of a callback")
+								}
+								if at.k == kOpaque {
+									continue
+								}
+								vals, vty = append(vals, s), at
+							}
+							if len(vals) != 1 {
+								return nil, t.posErr(call, "a callback with other than one non-opaque argument")
+							}
+							pv, err := x.c.toPayload(vals[0], vty)
+							if err != nil {
+								return nil, t.posErr(call, "%v", err)
+							}
+							return []string{fmt.Sprintf("Send (fun v => %s) (fun v => %s)", x.c.chanCtor("C"+title(fs.Sel.Name)+"Call", ""), pv)}, nil
+						}
+					}
+				}
+			}
 			if id, ok := ast.Unparen(call.Fun).(*ast.Ident); ok {
 				if b, ok := t.info.Uses[id].(*types.Builtin); ok && b.Name() == "close" {
 					ch, _, err := x.chanExpr(call.Args[0])
@@ -732,6 +772,15 @@ func (x *cctx) stmt(s ast.Stmt) ([]string, error) {
 					return append(pre, "Sleep "+fun(d)), nil
 				case callee.Pkg().Path() == "time" && callee.Name() == "Stop" && recvName(callee) == "Ticker":
 					return []string{"TickerStop"}, nil
+				case callee.Pkg().Path() == "sync" && callee.Name() == "Done" && recvName(callee) == "WaitGroup":
+					// smpl.wg.Done(): the goroutine tells the WaitGroup that it has ended -- a close of the channel C<field>Done
+					if ms, ok := ast.Unparen(call.Fun).(*ast.SelectorExpr); ok {
+						if fs, ok := ast.Unparen(ms.X).(*ast.SelectorExpr); ok {
+							if lv := t.identVar(fs.X); lv != nil && lv.proj == "st_dsc" {
+								return []string{fmt.Sprintf("Close (fun v => %s)", x.c.chanCtor("C"+title(fs.Sel.Name)+"Done", ""))}, nil
+							}
+						}
+					}
 				case strings.HasSuffix(callee.Pkg().Path(), "akramarenkov/breaker") && callee.Name() == "Complete":
 					// dsc.breaker.Complete(): the goroutine tells the breaker that it has ended -- a close of the channel C<field>Complete
 					if ms, ok := ast.Unparen(call.Fun).(*ast.SelectorExpr); ok {
@@ -1193,6 +1242,12 @@ func (x *cctx) chanExpr(e ast.Expr) (string, types.Type, error) {
 				}
 				if isRecv(root) {
 					return x.c.chanCtor("C"+title(fs.Sel.Name)+title(ms.Sel.Name), ""), ch.Elem(), nil
+				}
+			}
+			// ctx.Done() of a context that is a parameter / local variable
+			if id, ok := ast.Unparen(ms.X).(*ast.Ident); ok && ms.Sel.Name == "Done" {
+				if lv := t.identVar(id); lv != nil && lv.proj != "st_dsc" && lv.t.k == kOpaque {
+					return x.c.chanCtor("C"+title(id.Name)+"ArgDone", ""), ch.Elem(), nil
 				}
 			}
 		}
